@@ -120,13 +120,18 @@ def run_sync(peer, sched, before=()):
         return agent_plan(peer, plans[k], dg)
     agent = e2e.ThreadAgent(script)
     try:
-        with SnmpSession("127.0.0.1", port=agent.port, timeout=T_TICKS * TICK, **session_kwargs(peer)) as s:
+        t0 = time.monotonic()
+        s = SnmpSession("127.0.0.1", port=agent.port, timeout=T_TICKS * TICK, **session_kwargs(peer))
+        r = e2e.ncall(s.refresh) if peer.kind == "v3" else ("ok", None)
+        el = time.monotonic() - t0
+        if r[0] == "ok":
             for _ in before:
                 e2e.ncall(lambda: s.get("1.3.6.1.2.1.1.3.0"))
                 time.sleep(TICK)
             t0 = time.monotonic()
             r = e2e.ncall(lambda: s.get("1.3.6.1.2.1.1.3.0"))
             el = time.monotonic() - t0
+        # (a refresh() that fails although the agent answers every probe at once is the outcome of the case)
     finally:
         agent.stop = True
     mark = state["mark"] if state["mark"] is not None else len(agent.sent)
@@ -161,13 +166,15 @@ async def run_async_one(peer, sched):
     transport, _ = await loop.create_datagram_endpoint(Proto, local_addr=("127.0.0.1", 0))
     port = transport.get_extra_info("sockname")[1]
     try:
-        async with SnmpSession("127.0.0.1", port=port, timeout=T_TICKS * TICK, **session_kwargs(peer)) as s:
+        t0 = time.monotonic()
+        try:
+            s = SnmpSession("127.0.0.1", port=port, timeout=T_TICKS * TICK, **session_kwargs(peer))
+            await s.refresh()          # (what `async with` does on entry; probes are answered at once)
             t0 = time.monotonic()
-            try:
-                r = ("ok", await s.get("1.3.6.1.2.1.1.3.0"))
-            except BaseException as ex:  # noqa: BLE001
-                r = ("exc", type(ex).__name__, isinstance(ex, Exception))
-            el = time.monotonic() - t0
+            r = ("ok", await s.get("1.3.6.1.2.1.1.3.0"))
+        except BaseException as ex:  # noqa: BLE001
+            r = ("exc", type(ex).__name__, isinstance(ex, Exception))
+        el = time.monotonic() - t0
     finally:
         transport.close()
     return r, el, [(ts - t0) / TICK for ts in sent]
@@ -303,6 +310,95 @@ def run_entry(mode, peer, op, stray_first):
     if t.is_alive() or "r" not in box:
         return None, None
     return box["r"], box["el"]
+
+
+
+def interference_case(kind):
+    """a timed get() (timeout 0.4 s, silent agent) while something else goes on in the process; returns (outcome tuple,
+    elapsed) or (None, None) when it is still blocked after 6 s.
+    kind: 'signals' (a Python-level signal handler fires every 150 ms), 'other-thread-refresh' (another thread sits in
+    refresh() of a sync v3 session towards a silent agent with a 3 s timeout), 'policed-neighbour' (async: another session
+    of the same loop, rate-limited to one request per 2 s, has its second request pending)"""
+    import signal
+    import threading
+    T = T_TICKS * TICK
+    peer = e2e.Peer("v2c")
+    silent = e2e.ThreadAgent(lambda dg: [])
+    box = {}
+    try:
+        if kind == "signals":
+            from gufo.snmp.sync_client import SnmpSession
+            # the call is made on the main thread; a helper thread sends SIGALRM to exactly that thread every 150 ms,
+            # 20 times (3 s): a call that is kept alive by the signals still comes back when they stop
+            old = signal.signal(signal.SIGALRM, lambda *a: None)
+            main_id = threading.get_ident()
+            stop = {"v": False}
+
+            def pinger():
+                for _ in range(20):
+                    time.sleep(0.15)
+                    if stop["v"]:
+                        return
+                    try:
+                        signal.pthread_kill(main_id, signal.SIGALRM)
+                    except (OSError, ValueError):
+                        return
+            threading.Thread(target=pinger, daemon=True).start()
+            try:
+                s = SnmpSession("127.0.0.1", port=silent.port, timeout=T, **session_kwargs(peer))
+                t0 = time.monotonic()
+                r = e2e.ncall(lambda: s.get("1.3.6.1.2.1.1.3.0"))
+                el = time.monotonic() - t0
+            finally:
+                stop["v"] = True
+                signal.signal(signal.SIGALRM, old)
+            return (r, el) if r is not None else (None, None)
+        if kind == "other-thread-refresh":
+            from gufo.snmp.sync_client import SnmpSession
+            v3 = e2e.Peer("v3", auth=1, priv=0, auth_kt="localized")
+            silent3 = e2e.ThreadAgent(lambda dg: [])
+
+            def other():
+                try:
+                    s3 = SnmpSession("127.0.0.1", port=silent3.port, timeout=3.0, **session_kwargs(v3))
+                    e2e.ncall(s3.refresh)
+                finally:
+                    silent3.stop = True
+            th = threading.Thread(target=other, daemon=True)
+            th.start()
+            time.sleep(0.3)            # the other thread is inside refresh() now
+            s = SnmpSession("127.0.0.1", port=silent.port, timeout=T, **session_kwargs(peer))
+            t0 = time.monotonic()
+            r = e2e.run_guarded(lambda: e2e.ncall(lambda: s.get("1.3.6.1.2.1.1.3.0")), 6.0, None)
+            el = time.monotonic() - t0
+            return (r, el) if r is not None else (None, None)
+        # policed-neighbour
+        answering = e2e.ThreadAgent(lambda dg: [(0, peer.response(peer.decode(dg), [ber.varbind((1, 3, 6, 1, 2, 1, 1, 3, 0), ber.INT(1))]))])
+
+        async def main():
+            import asyncio
+            from gufo.snmp.async_client import SnmpSession
+            a = SnmpSession("127.0.0.1", port=answering.port, timeout=3.0, limit_rps=0.5, **session_kwargs(peer))
+            b = SnmpSession("127.0.0.1", port=silent.port, timeout=T, **session_kwargs(peer))
+            await a.get("1.3.6.1.2.1.1.3.0")              # uses A's first slot
+            t0 = time.monotonic()
+            mine = asyncio.ensure_future(b.get("1.3.6.1.2.1.1.3.0"))      # B's request is in flight ...
+            await asyncio.sleep(0.05)
+            pending = asyncio.ensure_future(a.get("1.3.6.1.2.1.1.3.0"))   # ... when A's second request has to wait ~2 s for its slot
+            try:
+                r = ("ok", await mine)
+            except BaseException as ex:  # noqa: BLE001
+                r = ("exc", type(ex).__name__, isinstance(ex, Exception))
+            el = time.monotonic() - t0
+            pending.cancel()
+            return r, el
+        try:
+            got = e2e.run_coro(main(), 8.0)
+        finally:
+            answering.stop = True
+        return got if got is not None else (None, None)
+    finally:
+        silent.stop = True
 
 
 def outcome(r):
@@ -472,6 +568,29 @@ def run(chk, model_ok=True):
                     chk.violation("oracle", why, {"kind": "oracle", "lines": [line], "timeout_s": T_s, "mode": mode})
                     bad += 1
     chk.coverage["entry_point_cases"] = n_entry
+    # what else goes on in the process must not stretch a call beyond its timeout: signal handlers firing during the wait,
+    # another thread blocked in its own session, a rate-limited neighbour session on the same event loop
+    for kind in ("signals", "other-thread-refresh", "policed-neighbour"):
+        def problem(kind=kind):
+            r, el = interference_case(kind)
+            if r is None:
+                return f"get() with timeout {T_s} s against a silent agent ({kind}) is still blocked after 6 s"
+            got = outcome(r)
+            if el > T_s + 0.35:
+                return (f"get() with timeout {T_s} s against a silent agent ended as {got} only after {el:.2f} s while: {kind} "
+                        "(the call outlived its timeout)")
+            if got not in ("timeout", "OSError"):
+                return f"get() with timeout {T_s} s against a silent agent ({kind}) ended as {got}"
+            return None
+        why = problem()
+        for _ in range(2):
+            if not why:
+                break
+            why = problem()
+        n_entry += 1
+        if why:
+            chk.violation("oracle", why, {"kind": "oracle", "lines": [f"# interference {kind}"], "timeout_s": T_s})
+            bad += 1
     hist = {}
     distinct = set()
     lines = []
